@@ -617,6 +617,8 @@ pub fn gen(thorough: bool, seed: u64, out: &mut impl Write) {
   let prots = [
     "H:EdDSA:-:-:-:-", "H:EdDSA:t:b64:-:-", "H:EdDSA:f:b64:-:-", "H:EdDSA:f:-:-:-", "H:EdDSA:-:b64:-:-", "H:ES256:-:-:kid,typ,nonce:x", "H:EdDSA:f:b64:kid,url:x,y",
     "H:-:-:-:kid:-", "H:EdDSA:-:=:-:-", "H:EdDSA:-:exp:-:exp",
+    // a protected header without any parameter (`{}`, encoded `e30`): present, signed, and to be read back as present
+    "H:-:-:-:-:-",
   ];
   let unprots = ["_", "H:-:-:-:typ:-", "H:-:-:-:kid:-", "H:-:-:-:-:z", "H:-:t:-:-:-", "H:EdDSA:-:-:-:-"];
   let mut payloads: Vec<Vec<u8>> = vec![
@@ -660,6 +662,7 @@ pub fn gen(thorough: bool, seed: u64, out: &mut impl Write) {
   let recs = [
     ("H:EdDSA:-:-:-:-", "_"), ("H:EdDSA:t:b64:-:-", "_"), ("H:EdDSA:f:b64:-:-", "_"), ("H:ES256:f:b64:kid:-", "H:-:-:-:typ:-"), ("H:EdDSA:-:-:kid:-", "H:-:-:-:kid:-"),
     ("_", "H:EdDSA:-:-:-:-"), ("_", "_"), ("H:ES256:-:-:nonce:-", "H:-:-:-:-:q"),
+    ("H:-:-:-:-:-", "H:EdDSA:-:-:-:-"), ("H:-:-:-:-:-", "_"),
   ];
   let npl = if thorough { payloads.len() } else { 14 };
   for pl in payloads.iter().take(npl) {
